@@ -17,7 +17,7 @@
    Frames: one per if / else-if / else branch and while (condition inside), one per for (loop
    variable, range expression and body share it), one per func / on (parameters and body). *)
 From Coq Require Import List NArith ZArith Bool Arith String.
-From EvyV Require Import Base Pratt Parser ParserProofs ParserRules ParserScope.
+From EvyV Require Import Base Pratt Parser ParserProofs ParserRules ParserScope ParserCursor.
 From EvyV.Gen Require Import Prec.
 Import ListNotations.
 Local Open Scope nat_scope.
@@ -33,23 +33,42 @@ Theorem C05_scope_accept_static : forall B raw eof p,
 Proof. exact accept_static. Qed.
 Print Assumptions C05_scope_accept_static.
 
-(* (f) (g) (h).  An accepted program passes the scope checker.
-   _partial: under the premise funcs_named B raw = true: "the statement loop of this run never
-   stands on a `func` keyword whose next token is not an identifier" (an executable function of
-   the model run; see ParserScope.loop_named).  In that branch parseFunc parses the body in a
-   scope of its own, returns nil and records no error ("already reported by
-   parseFuncSignatures"), so variable uses inside the dropped body mark outer variables that the
-   tree no longer shows.  The premise always holds when parse reaches the statement loop — the
-   pre-pass has reported an error at every such `func` and Parse stops after a pre-pass with
-   errors — but proving that needs two more invariants of the whole statement pass (the cursor
-   is a suffix of the token list; the whitespace-sensitivity stack is [false] between
-   statements) that are not proved.  Examples below: funcs_named is true on the accepted
-   example, and false only on an input that the pre-pass rejects. *)
-Theorem C05_scope_accept_scoped_partial : forall B raw eof p,
-  parse B raw eof = Accept p -> funcs_named B raw = true ->
-  scope_prog (tabs_of B (fn_table B raw)) p = true.
-Proof. exact accept_scoped_partial. Qed.
-Print Assumptions C05_scope_accept_scoped_partial.
+(* (f) (g) (h).  For every token list, builtin table and typing oracle: an accepted program
+   passes the scope checker.
+   Proof: the statement-by-statement simulation below, plus (ParserCursor.v) the fact that
+   the statement loop never stands on a `func` keyword whose next token is not an identifier
+   (there parseFunc parses the body in a scope of its own, returns nil and records no error —
+   "already reported by parseFuncSignatures" — so uses inside the dropped body would mark outer
+   variables that the tree does not show).  That fact is derived from the signature pre-pass
+   having ended without error (Parse stops after a pre-pass with errors): the pre-pass visits
+   every `func` token of the list with a whitespace-insensitive cursor and reports a missing
+   name; the cursor of the statement pass is always a suffix of the same token list and every
+   parser function restores the whitespace-sensitivity stack (a pass over all expression and
+   statement functions of the model). *)
+Theorem C05_scope_accept_scoped : forall B raw eof p,
+  parse B raw eof = Accept p -> scope_prog (tabs_of B (fn_table B raw)) p = true.
+Proof. exact accept_scoped. Qed.
+Print Assumptions C05_scope_accept_scoped.
+
+(* the fact used above, on its own *)
+Theorem C05_scope_accept_funcs_named : forall B raw eof p,
+  parse B raw eof = Accept p -> funcs_named B raw = true.
+Proof. exact accept_funcs_named. Qed.
+Print Assumptions C05_scope_accept_funcs_named.
+
+(* the function table of an accepted parse (the table the static rules above refer to): the
+   builtins, preceded by one entry per `func` keyword of the token list, latest first, each named
+   by the identifier that follows the keyword (func_names), niladic iff its parsed parameter list
+   is empty, with arity = the number of parsed parameters, or variadic for a single `p:T...`.
+   (Not stated: that the names are distinct and differ from builtins - the pre-pass reports
+   redeclaration and overriding; that the parameter list is what a reader of the source would
+   call the parameters - it is what parseFuncDefSignature's loop consumed.) *)
+Theorem C05_scope_fn_table_shape : forall B raw eof p,
+  parse B raw eof = Accept p ->
+  exists sigs, fn_table B raw = sigs ++ builtin_table B /\
+               map fst sigs = rev (func_names (legal_toks raw)) /\ Forall (fun nf => fi_wf (snd nf)) sigs.
+Proof. exact fn_table_shape. Qed.
+Print Assumptions C05_scope_fn_table_shape.
 
 (* the simulation itself, one statement: on an error-free run from a state with a non-empty
    scope chain and an empty read log, the scope checker maps the abstraction of the chain
@@ -138,10 +157,12 @@ Definition ex_ok : list (list (toktype * string)) :=
 Example C05_scope_ex_accepted :
   exists p, run ex_ok = Accept p /\ funcs_named B1 (prog ex_ok) = true /\
             scope_prog (tabs_of B1 (fn_table B1 (prog ex_ok))) p = true /\ List.length p = 4 /\
-            map fst (fn_table B1 (prog ex_ok)) = [s_ "f"; s_ "print"; s_ "len"].
+            map fst (fn_table B1 (prog ex_ok)) = [s_ "f"; s_ "print"; s_ "len"] /\
+            func_names (legal_toks (prog ex_ok)) = [s_ "f"] /\
+            option_map fi_arity (lookup_fn (s_ "f") (fn_table B1 (prog ex_ok))) = Some (Some 1).
 Proof. vm_compute. eexists. repeat split. Qed.
 
-(* the premise of the _partial theorem fails on `func` without a name; the pre-pass rejects that input *)
+(* funcs_named is false on `func` without a name; the pre-pass rejects that input *)
 Example C05_scope_ex_nameless_func :
   funcs_named B1 (prog [[k_ T_FUNC]; [i_ "print"; n_ "1"]; [k_ T_END]]) = false /\
   rejected (run [[k_ T_FUNC]; [i_ "print"; n_ "1"]; [k_ T_END]]) = true.
